@@ -279,45 +279,35 @@ def readColumn (o : ColOpts) (bt : Nat) (xs : List Cell) (start : Nat) (ops : Li
   (blockInfos o (buildColumn o bt xs).1 (buildColumn o bt xs).2).map
     fun blocks => runOps (ColIter.new blocks (defaultItem o.kind) start) ops
 
-/-- **Reads refine slices (partial: scan programs, columns whose blocks are not plain-nullable).**
+/-- **Reads refine slices (scan programs; every column, plain-nullable included).**
 Invariant proof over ARBITRARY sequences of `next_batch(Some k)` (any k ≥ 1), `next_batch(None)`,
 hint-bounded batches, `fetch_hint` and `fetch_current_row_id`, from ANY good iterator state (`GoodState`:
 what `new` and every such operation leave behind): every returned `(row_id, batch)` has
 `row_id` = the logical position, `batch = xs[row_id .. row_id+len]`, `1 ≤ len ≤ k`; the position advances
 by `len`, so the concatenation of the batches is `xs[start ..]` in order; `None` only at the end.
-Hypotheses: well-formed decoded blocks (what `column_roundtrip` delivers) and no block read through a
-top-level `NullableBlockIterator` — exactly the hypothesis that excludes
-`nullable_cross_block_witness`; it covers non-nullable plain columns and all RLE / dictionary columns
-(nullable or not).  NOT covered by a theorem: `skip` / seeking to a start row > 0 (`skip_inner`,
-fake iterator, `block_of_row`) and plain-nullable columns under the `fetch_hint` discipline. -/
+Hypothesis: well-formed decoded blocks (what `column_roundtrip` delivers).  Since the repair of
+`iter:nullable-batch-crosses-block` (`replace_bitmap` rewrites the validity of the rows just produced,
+lemma `replaceBitmap_pushed`) there is no hypothesis on the block type any more: blocks read through a
+top-level `NullableBlockIterator` are covered, for batches spanning any number of blocks.
+NOT covered by a theorem: `skip` / seeking to a start row > 0 (`skip_inner`, fake iterator,
+`block_of_row`). -/
 theorem iter_refines_slice_partial (blocks : List BlockInfo) (dflt : Bytes)
-    (hraw : ∀ b ∈ blocks, b.rawNullable = false) (hwf : WfBlocks blocks 0)
+    (hwf : WfBlocks blocks 0)
     (ops : List IterOp) (hops : ∀ op ∈ ops, ScanOp op) (c : ColIter) (hg : GoodState blocks dflt c) :
     SpecScan (cellsOf blocks) c.rowId ops (runOps c ops) :=
-  scan_spec blocks dflt hraw hwf ops hops c hg
+  scan_spec blocks dflt hwf ops hops c hg
 
-/-- End to end: build a column (any kind / block size; RLE or dictionary, or non-nullable plain), decode
-it, scan it from row 0 with any scan program: the outputs are the slices of the written cells. -/
+/-- End to end: build a column (any kind / block size / encoding, nullable or not), decode it, scan it
+from row 0 with any scan program: the outputs are the slices of the written cells. -/
 theorem iter_refines_slice_scan (o : ColOpts) (bt : Nat) (hbt : bt < BLOCK_TYPE_COUNT) (xs : List Cell)
     (hk : KindOk o.kind xs) (hlen : xs.length < 2 ^ 29) (heq : o.enc = .plain ∨ EqSound o.eq)
     (hn : o.nullable = true ∨ o.enc = .dict ∨ ∀ c ∈ xs, c ≠ none)
-    (hplain : (o.nullable && o.enc == .plain) = false) (hne : xs ≠ [])
+    (hne : xs ≠ [])
     (ops : List IterOp) (hops : ∀ op ∈ ops, ScanOp op) :
     ∃ blocks, blockInfos o (buildColumn o bt xs).1 (buildColumn o bt xs).2 = some blocks
       ∧ SpecScan xs 0 ops (runOps (ColIter.new blocks (defaultItem o.kind) 0) ops) := by
   obtain ⟨h1, h2, h3⟩ := column_roundtrip o bt hbt xs hk hlen heq
   refine ⟨_, h1, ?_⟩
-  have hraw : ∀ b ∈ infosOf o (cut o xs) 0, b.rawNullable = false := by
-    generalize cut o xs = chunks
-    generalize (0 : Nat) = row
-    induction chunks generalizing row with
-    | nil => intro b hb; simp [infosOf] at hb
-    | cons ch rest ih =>
-      intro b hb
-      simp only [infosOf, List.mem_cons] at hb
-      rcases hb with rfl | hb
-      · exact hplain
-      · exact ih _ b hb
   have hne' : infosOf o (cut o xs) 0 ≠ [] := by
     intro h0
     have := congrArg (fun l => l.flatMap (·.cells)) h0
@@ -325,8 +315,8 @@ theorem iter_refines_slice_scan (o : ColOpts) (bt : Nat) (hbt : bt < BLOCK_TYPE_
     cases xs with
     | nil => exact hne rfl
     | cons x rest => simp at this
-  obtain ⟨hg, hr0⟩ := new_good _ (defaultItem o.kind) hraw h3 hne'
-  have := iter_refines_slice_partial _ _ hraw h3 ops hops _ hg
+  obtain ⟨hg, hr0⟩ := new_good _ (defaultItem o.kind) h3 hne'
+  have := iter_refines_slice_partial _ _ h3 ops hops _ hg
   rw [hr0] at this
   have hx : cellsOf (infosOf o (cut o xs) 0) = xs := by
     show (infosOf o (cut o xs) 0).flatMap (·.cells) = xs
@@ -340,31 +330,47 @@ example : ∃ blocks, blockInfos { kind := .fixed 1, nullable := true, enc := .r
     ∧ SpecScan [some [1], none, none, some [2]] 0 [.next (some 3), .hint, .next none]
         (runOps (ColIter.new blocks (defaultItem (.fixed 1)) 0) [.next (some 3), .hint, .next none]) :=
   iter_refines_slice_scan _ 6 (by decide) _ (by intro it hit; simp at hit; rcases hit with rfl | rfl <;> rfl)
-    (by decide) (.inr eqSound_bytes) (.inl rfl) rfl (by decide) _
+    (by decide) (.inr eqSound_bytes) (.inl rfl) (by decide) _
     (by intro op hop; simp at hop; rcases hop with rfl | rfl | rfl <;> simp [ScanOp])
 
-/-- FULL statement of the read side of C06 (kept visible): for every nullable column, every start
+/-- the plain-nullable instance of the theorem: three i32 cells `[1, NULL, 3]`, block size 24 (one row
+per block), batches of two rows spanning two blocks -/
+example : ∃ blocks, blockInfos { kind := .fixed 4, nullable := true, enc := .plain, blockSize := 24 }
+      (buildColumn { kind := .fixed 4, nullable := true, enc := .plain, blockSize := 24 } 3 [some [1, 0, 0, 0], none, some [3, 0, 0, 0]]).1
+      (buildColumn { kind := .fixed 4, nullable := true, enc := .plain, blockSize := 24 } 3 [some [1, 0, 0, 0], none, some [3, 0, 0, 0]]).2
+        = some blocks
+    ∧ SpecScan [some [1, 0, 0, 0], none, some [3, 0, 0, 0]] 0 [.next (some 2), .next none]
+        (runOps (ColIter.new blocks (defaultItem (.fixed 4)) 0) [.next (some 2), .next none]) :=
+  iter_refines_slice_scan _ 3 (by decide) _ (by intro it hit; simp at hit; rcases hit with rfl | rfl <;> rfl)
+    (by decide) (.inl rfl) (.inl rfl) (by decide) _
+    (by intro op hop; simp at hop; rcases hop with rfl | rfl <;> simp [ScanOp])
+
+/-- FULL statement of the read side of C06 (kept visible; NOT proved — `skip` and start rows > 0 are
+outside `iter_refines_slice_scan` — and no longer refuted): for every nullable column, every start
 row and every read program, each returned (row_id, batch) is the slice of the input at row_id. -/
 def IterRefinesSliceFull : Prop :=
   ∀ (o : ColOpts) (bt : Nat) (xs : List Cell) (start : Nat) (ops : List IterOp) (outs : List IterOut),
     o.nullable = true → start ≤ xs.length →
     readColumn o bt xs start ops = some outs → ∀ out ∈ outs, batchIsSlice xs out = true
 
-/-- REFUTED for the code that exists: on a plain nullable column a batch that spans two blocks
-comes back with the last block's validity bitmap only (`replace_bitmap`), i.e. with the wrong
-length and the wrong NULLs. Three i32 cells `[1, NULL, 3]`, block size 24 (one row per block),
-`next_batch(Some 2)` from row 0 returns the single row `[NULL]` at row id 0. -/
-theorem nullable_cross_block_witness : ¬ IterRefinesSliceFull := by
-  intro h
-  have := h { kind := .fixed 4, nullable := true, enc := .plain, blockSize := 24 } 3
-    [some [1, 0, 0, 0], none, some [3, 0, 0, 0]] 0 [.next (some 2)]
-    [.batch 0 [none]] rfl (by decide) (by decide +kernel) (.batch 0 [none]) (by simp)
-  revert this; decide
+/-- REGRESSION (was `nullable_cross_block_witness`, the refutation of `IterRefinesSliceFull`): on a plain
+nullable column a batch that spans two blocks comes back complete, under each row's own validity.
+Three i32 cells `[1, NULL, 3]`, block size 24 (one row per block): `next_batch(Some 2)` from row 0
+returns `[1, NULL]` at row id 0 and the next batch `[3]` at row id 2 (corpus/C06 line 1; before the
+repair the model and the implementation returned `[NULL]` at row id 0: one row lost). -/
+theorem nullable_cross_block_regression :
+    readColumn { kind := .fixed 4, nullable := true, enc := .plain, blockSize := 24 } 3
+      [some [1, 0, 0, 0], none, some [3, 0, 0, 0]] 0 [.next (some 2), .next none]
+    = some [.batch 0 [some [1, 0, 0, 0], none], .batch 2 [some [3, 0, 0, 0]]] := by decide +kernel
 
-/-- what the model (and the implementation, corpus/C06 line 1) return on the witness -/
-example : readColumn { kind := .fixed 4, nullable := true, enc := .plain, blockSize := 24 } 3
-    [some [1, 0, 0, 0], none, some [3, 0, 0, 0]] 0 [.next (some 2), .next none]
-    = some [.batch 0 [none], .batch 2 [some [3, 0, 0, 0]]] := by decide +kernel
+/-- the mechanism that was repaired: a block iterator that REPLACES the builder's whole validity bitmap
+(`nextBatchPre`) loses the rows the builder already holds from the previous block; the repaired one
+keeps them. -/
+theorem replace_whole_bitmap_loses_rows :
+    let it : BIter := { cells := [none], pos := 0, rawNullable := true, dflt := [0, 0, 0, 0] }
+    let held : ArrB := { data := [[1, 0, 0, 0]], valid := [true] }
+    (it.nextBatchPre (some 1) held).2.1.finish = [none]
+    ∧ (it.nextBatch (some 1) held).2.1.finish = [some [1, 0, 0, 0], none] := by decide
 
 /-- FULL statement for fixed-width char (kept visible): every item of at most `w` bytes reads back. -/
 def CharRoundtripFull : Prop :=
